@@ -109,7 +109,7 @@ def check_G2(ctx, facts):
            'every key of the new handlers is recorded under the service name' if good else 'service table does not record every new handler key under the service name')
 
 
-def check_G3(ctx, facts, dispatch_sem=False):
+def check_G3(ctx, facts, dispatch_sem=False, key_sem=False):
     # registry side
     addh = facts.body(R + 'handler::ServiceRegistry::add_handler')
     gh = facts.body(R + 'server::ServerState::get_handler')
@@ -130,17 +130,25 @@ def check_G3(ctx, facts, dispatch_sem=False):
     calls = list(addh.calls())
     ins = [(b, t) for b, t in calls if cname(t) == 'alloc::collections::btree::map::BTreeMap::insert']
     good = False
+    hs_seen = []
     for b, t in ins:
         kb = flow.backward([op_local(t['args'][1])])
         hs = [tt for _b, tt in calls if cname(tt) == R + 'hash' and tt['dest']['l'] in kb]
         for h in hs:
+            hs_seen.append(h)
             hash_types.append(('registry', (h.get('gargs') or ['?'])[0]))
             ub = flow.backward([op_local(h['args'][0])])
             us = [tt for _b, tt in calls if cname(tt) == R + 'to_uri_path' and tt['dest']['l'] in ub]
             if us and uri_call_ok(addh, us[0], flow):
                 good = True
-    ctx.ob('C13.G3', 'registry-key', good, site(addh),
-           'registry key = hash(to_uri_path(service_name(), path()))' if good else 'registry key is not hash(to_uri_path(service_name(), path())) with the parts in that order')
+    if key_sem:
+        # decided by the symbolic summary (registry_abs.check_keys); every hash in add_handler is on the registry side
+        for _b, tt in calls:
+            if cname(tt) == R + 'hash' and not any(tt is h for h in hs_seen):
+                hash_types.append(('registry', (tt.get('gargs') or ['?'])[0]))
+    else:
+        ctx.ob('C13.G3', 'registry-key', good, site(addh),
+               'registry key = hash(to_uri_path(service_name(), path()))' if good else 'registry key is not hash(to_uri_path(service_name(), path())) with the parts in that order')
     # lookup side
     flow = Flow(gh)
     calls = list(gh.calls())
@@ -197,7 +205,8 @@ def check_G3(ctx, facts, dispatch_sem=False):
                             return r
             return None
         good = field_of(t['args'][0]) == 'service_name' and field_of(t['args'][1]) == 'path'
-    ctx.ob('C13.G3', 'client-uri', good, site(mm), 'client URI = to_uri_path(service_name, path)' if good else 'client builds its URI from the metadata fields in a different order / with a different function')
+    if not key_sem:
+        ctx.ob('C13.G3', 'client-uri', good, site(mm), 'client URI = to_uri_path(service_name, path)' if good else 'client builds its URI from the metadata fields in a different order / with a different function')
     n_md = 0
     for b in facts.bodies.values():
         if b.crate != 'datacake_rpc' or b.d['promoted']:
@@ -261,6 +270,9 @@ def check(ctx):
     # against both answers of the handler (server_abs); subsumes G4 and the request-path clause of G3
     import server_abs
     sem = server_abs.check_dispatch(ctx, facts, 'C13.SEM')
-    check_G3(ctx, facts, dispatch_sem=bool(sem))
+    # SEM: the key a handler ends up under in the handler map and the URI the client builds, as symbolic terms over
+    # service_name() / path() / to_uri_path / hash (registry_abs.check_keys); subsumes the registry-key and client-uri clauses of G3
+    ksem = registry_abs.check_keys(ctx, facts, 'C13.SEM')
+    check_G3(ctx, facts, dispatch_sem=bool(sem), key_sem=bool(ksem))
     if not sem:
         check_G4(ctx, facts)
